@@ -1,4 +1,92 @@
-"""C12 — not built yet."""
+"""C12 — output assembly loses nothing: insertion points and file-name conflicts (DESIGN.md §5.12, docs/C12.md)."""
+import json, os
+from vlib import core
+
+THEOREMS = ["Props.C12." + t for t in [
+    "marker_cfg_facts", "first_content_kept", "first_content_kept_history", "patches_only_appended",
+    "dup_dropped", "conflict_renamed", "patch_goes_to_last", "unnamed_first_is_error", "feed_error_iff",
+    "feed_never_panics", "nothing_lost", "sib_injective", "names_unique_partial", "names_unique_false",
+    "scan_lossless", "patches_in_order", "markers_removed", "text_preserved", "replacer_order_irrelevant"]]
+
+PARTIAL = [dict(theorem="Props.C12.names_unique_partial",
+                hypothesis="noRenameShaped (histNames calls) (histLen calls) = true  -- no submitted name equals <base>_<k><ext> of a submitted name, 1 <= k <= number of items",
+                why="names_unique is false on the code: Feed [a.go:X, a_1.go:X, a.go:Y] answers two files named a_1.go (Props.C12.names_unique_false; replayed on the implementation by every run)"),
+           dict(theorem="Props.C12.patches_in_order / markers_removed / text_preserved",
+                hypothesis="WordPoints cfg ps  -- every patch point of the file lies in the marker alphabet",
+                why="a patch whose point has bytes outside [$.0-9a-zA-Z_] makes the replacer act on text the regexp does not call a marker; with ')' in a point the output depends on Go map order (docs/C12.md)")]
+
+
+def merge_stats(acc, st):
+    if acc is None:
+        return st
+    for k in ("evaluations", "distinct", "distinct_nontrivial"):
+        acc[k] += st[k]
+    for k, v in st["distribution"].items():
+        acc["distribution"][k] = acc["distribution"].get(k, 0) + v
+    acc["samples"] = (acc["samples"] or []) + (st["samples"] or [])
+    keys = {f["key"] for f in (acc.get("oracle_failures") or [])}
+    for f in (st.get("oracle_failures") or []):
+        if f["key"] not in keys:
+            acc["oracle_failures"] = (acc.get("oracle_failures") or []) + [f]
+            keys.add(f["key"])
+    return acc
+
+
 def run(ctx):
-    print("C12: no check built yet")
-    return 2
+    exe = ctx.go_build("c12")
+    ctx.partial = PARTIAL
+    ctx.trusted += ["translator harness/cmd/c12 extract (go/ast over generator/file_manager.go: insertReg literal; regexp/syntax shape check; plugin.InsertionPointFormat of the linked tree)",
+                    "correspondence harness harness/cmd/c12 run vs tv_c12 (in-process FileManager.Feed*/BuildResponse on seeded Feed histories)"]
+    ctx.assumptions += ["regexp.FindAllString for <literal><ASCII class>*<byte not in class>: left-to-right scan, maximal class run (model: FileManager.scan/markerLen)",
+                        "strings.NewReplacer(...).Replace with non-empty keys: at each position the first pair in argument order whose key is a prefix (model: FileManager.replace/lookupPrefix)",
+                        "Go map range order is arbitrary; the model ranges in insertion order; Props.C12.replacer_order_irrelevant covers prefix-free key sets, the generator discards the others (point names containing ')')",
+                        "filepath.Ext on Unix, strings.TrimSuffix, fmt %d as modelled by FileManager.sib/dec",
+                        "each *plugin.Generated is submitted once (Feed renames by writing f.Name of the submitted object)"]
+    if exe and ctx.replay:
+        rc, out = core.sh([exe, "replay", "-repo", core.REPO, "-file", ctx.replay])
+        if rc != 0:
+            raise core.MachineryError("c12 replay failed: " + out[-2000:])
+        for f in json.loads(out.strip().split("\n")[-1]):
+            ctx.add_violation(f["key"], f["what"], f["input"], f["expected"], f["observed"])
+        ctx.cov["evaluations"] = 1
+        return ctx.finish(rule="replay of one Feed history")
+    if exe:
+        rc, gen = core.sh([exe, "extract", "-repo", core.REPO])
+        if rc != 0:
+            ctx.obligation("translator:c12-extract", False, gen[-2000:])
+        else:
+            ctx.obligation("translator:c12-extract", True)
+            ctx.write_generated("C12", gen)
+    built = ctx.lake_build(["ThriftVerif.Props.C12"], "lake-build:Props.C12")
+    drv = ctx.lake_build(["tv_c12"], "lake-build:tv_c12")
+    if built:
+        ctx.audit("C12", THEOREMS)
+        if ctx.tier == "thorough":
+            ctx.leanchecker(["ThriftVerif.Props.C12"])
+    if exe:
+        parts = 5 if ctx.tier == "thorough" else 1
+        acc = None
+        for part in range(parts):
+            d = os.path.join(ctx.work, "part%d" % part)
+            os.makedirs(d, exist_ok=True)
+            rc, out = core.sh([exe, "run", "-repo", core.REPO, "-dir", d, "-seed", str(ctx.seed), "-tier", ctx.tier,
+                               "-part", str(part), "-parts", str(parts)], timeout=3000)
+            if rc != 0:
+                raise core.MachineryError("c12 run failed: " + out[-2000:])
+            acc = merge_stats(acc, json.load(open(os.path.join(d, "stats.json"))))
+            if drv:
+                model = ctx.run_model("tv_c12", os.path.join(d, "ops.txt"), out_path=os.path.join(d, "model.txt"))
+                ctx.diff_lines("c12-part%d" % part, os.path.join(d, "ops.txt"), os.path.join(d, "impl.txt"), model)
+            for fn in ("ops.txt", "impl.txt", "model.txt"):
+                try:
+                    os.remove(os.path.join(d, fn))
+                except OSError:
+                    pass
+        ctx.cov.update(evaluations=acc["evaluations"], distinct_nontrivial=acc["distinct_nontrivial"], samples=acc["samples"],
+                       distribution=acc["distribution"], exhaustive=False)
+        for f in (acc.get("oracle_failures") or []):
+            ctx.add_violation(f["key"], f["what"], f["input"], f["expected"], f["observed"])
+    return ctx.finish(rule="Feed histories: 16 fixed cases (the repo's pinned tests, the suspected defect, marker corner cases), renaming chains "
+                           "of length 2..14, then seeded random histories (1-4 calls, quick: <=12 items, thorough: <=40) over small per-history pools of "
+                           "names (incl. <base>_<k><ext> shapes), contents (0..n markers, marker-like text) and points (in and outside the marker alphabet); "
+                           "non-trivial = has a patch or a repeated name; distinct by sha256 of the VL line")
